@@ -321,6 +321,40 @@ class SaltMenuPart(Part):
         return res
 
 
+class Aws32Part(Part):
+    name = "forms_with_a_32_character_key"
+    desc = "the forms that take exactly 32 characters (AWS pre-shared keys), with an all-digit, a hexadecimal, a type-7-shaped and a free-text key: format and context kept"
+
+    def __init__(self, tier, seed):
+        self.tier, self.seed = tier, seed
+        self.forms = {f["id"]: f for f in secdom.catalogue() if "{S32}" in f["template"] and not f["scrub"]}
+
+    def cases(self):
+        return [{"form": fid, "salt": s} for fid in sorted(self.forms) for s in SALTS[:2]]
+
+    def run(self, case):
+        res = Res()
+        f = self.forms[case["form"]]
+        secs = ["9081726354" * 3 + "12", "c0ffee77AB" * 3 + "9f", "0123456789abcdef" * 2, refs.type7_encode("FifteenCharsPlain"[:15], 9),
+                "cRr9m5bWF4D1P7EsGw53WWzWMO_xcvnY", "A" * 32, "1" * 32]
+        secs = [s for s in secs if len(s) == 32]
+        if "only" in case:
+            secs = [case["only"][0]]
+        lines, meta = [], []
+        for sec in secs:
+            ln = secdom.fill(f["template"], [sec])
+            i = ln.index(sec)
+            toks = ln.split()
+            idx = [k for k, t in enumerate(toks) if sec in t][0]
+            pre, post = toks[idx].split(sec)
+            lines.append(ln)
+            meta.append((sec, pre, post, idx))
+        judge(res, f, lines, meta, case["salt"])
+        if "only" not in case:
+            res.samples.append({"form": f["template"], "keys": len(secs)})
+        return res
+
+
 class EnclosingPart(Part):
     name = "enclosing_text"
     desc = "head x tail enclosing combinations around one secret per class, every form"
@@ -458,4 +492,4 @@ class DoubleMatch(Part):
 
 
 def parts(tier, seed):
-    return [FormatPart(tier, seed), EnclosingPart(tier, seed), DoubleMatch(tier, seed), CatchAllPart(tier, seed), SaltMenuPart(tier, seed)]
+    return [FormatPart(tier, seed), EnclosingPart(tier, seed), DoubleMatch(tier, seed), CatchAllPart(tier, seed), SaltMenuPart(tier, seed), Aws32Part(tier, seed)]
